@@ -444,4 +444,7 @@ func TestVF_C04(t *testing.T) {
 	vfEnumerate(t, "C04", "enum", space, get, func(x c04Scn) vfCase { return runC04(t, x, vfEnv.Replay != "") })
 	vfExplore(t, "C04", "sampled", vfN(1600, 40000), genC04, func(x c04Scn) vfCase { return runC04(t, x, vfEnv.Replay != "") })
 	vfExplore(t, "C04", "failure", vfN(320, 4000), genC04Fail, func(x c04Fail) vfCase { return runC04Fail(t, x, vfEnv.Replay != "") })
+	// a foreign peer advertising any subset of the extensions in any order (the generator and
+	// oracle of C17's ext-matrix): what the endpoint then uses must match what was advertised
+	vfExplore(t, "C04", "ext-matrix", vfN(800, 20000), genC17Ext, func(x c17Ext) vfCase { return runC17Ext(t, x, vfEnv.Replay != "") })
 }
